@@ -23,7 +23,7 @@ Proved, for ALL table contents (induction over lists, no enumeration):
   all-NULL row.  `C08_T82_collected` / `C08_T82_pushed`: what `check_query_conditions` collects (top-level conjuncts
   only, since repo commit 8fa2a67) is implied by WHERE — for EVERY tree, no hypothesis.  `C08_regression_not`: the
   former witness `WHERE NOT t1.y = 1` (pushed `y = 1` before 8fa2a67) is now planned correctly.
-  `C08_witness_isnull`: `IS NULL` pushed to the null-supplying side of a LEFT join.
+  `C08_witness_isnull` (component level; the planner stopped doing it with 15097fa: `C08_regression_isnull`): `IS NULL` pushed to the null-supplying side of a LEFT join.
 * `C08_T83_limit_left`   LIMIT below a LEFT join (no WHERE, no grouping).  `C08_witness_limit_inner`,
   `C08_witness_limit_group`; `C08_useLimit_*` pin the literal behaviour of `check_use_limit`.
 * `C08_partial`   the composition: for inner and left joins, the plan shape
@@ -142,6 +142,11 @@ theorem C08_T82_pushed (side : Nat) (w : Option Expr) (l r : TRow)
     (hw : whereOf w (l, r) = true) : holdsAll (pushedFor side w) l r = true :=
   pushed_of_where side w l r hw
 
+/-- … also after the NULL-accepting filters have been dropped on a null-supplying side (`pushedForK`) -/
+theorem C08_T82_pushedK (k : JoinKind) (side : Nat) (w : Option Expr) (l r : TRow)
+    (hw : whereOf w (l, r) = true) : holdsAll (pushedForK k side w) l r = true :=
+  holdsAll_filter _ _ l r (pushed_of_where side w l r hw)
+
 /-- regression example (defect fixed by repo commit 8fa2a67): for `WHERE NOT t1.y = 1` nothing is pushed … -/
 def notQ : Q2 := { kind := .inner, c0 := 0, c1 := 0, w := some (.not (.cmpC .eq 1 1 (.int 1))), limit := none }
 
@@ -152,11 +157,26 @@ def notDB : DB := { t0 := [[.int 1, .int 0]], t1 := [[.int 1, .int 2]], n0 := 2,
 
 theorem C08_regression_not : execPlan (plan notQ) notDB = evalQuery notQ notDB := by decide
 
-/-- `a LEFT JOIN b ON a.id = b.id WHERE b.y IS NULL` (anti-join idiom): `y IS NULL` is pushed into b's fetch -/
+/-- `a LEFT JOIN b ON a.id = b.id WHERE b.y IS NULL` (anti-join idiom).  Before repo commit 15097fa `y IS NULL` was
+pushed into b's fetch (a filter that is true for NULL, on the null-supplying side) and the plan returned a spurious
+NULL-padded row; now nothing is pushed there and plan = query — regression theorems. -/
 def isnullQ : Q2 := { kind := .left, c0 := 0, c1 := 0, w := some (.isNull 1 1), limit := none }
 def isnullDB : DB := { t0 := [[.int 1, .int 0]], t1 := [[.int 1, .int 2]], n0 := 2, n1 := 2 }
 
-theorem C08_witness_isnull : execPlan (plan isnullQ) isnullDB ≠ evalQuery isnullQ isnullDB := by decide
+theorem C08_regression_isnull_not_pushed :
+    (plan isnullQ).push1 = [] ∧
+    (plan { kind := .inner, c0 := 0, c1 := 0, w := some (.isNull 1 1), limit := none }).push1 = [.isNull 1 1] ∧
+    (plan { kind := .right, c0 := 0, c1 := 0, w := some (.isNull 0 1), limit := none }).push0 = [] ∧
+    (plan { kind := .left, c0 := 0, c1 := 0, w := some (.isNull 0 1), limit := none }).push0 = [.isNull 0 1] := by decide
+
+theorem C08_regression_isnull : execPlan (plan isnullQ) isnullDB = evalQuery isnullQ isnullDB := by decide
+
+/-- why 15097fa was needed — the component-level counterexample stays: restricting the null-supplying operand by a filter
+that accepts the all-NULL row changes `LEFT JOIN … WHERE` -/
+theorem C08_witness_isnull :
+    (leftJoin (eqOn 0 0) Prod.mk (nullRow 2) isnullDB.t0 (isnullDB.t1.filter fun r => (Expr.isNull 1 1).holds [] r)).filter
+        (whereOf isnullQ.w)
+      ≠ (leftJoin (eqOn 0 0) Prod.mk (nullRow 2) isnullDB.t0 isnullDB.t1).filter (whereOf isnullQ.w) := by decide
 
 /-! ## T8.3 limit pushdown -/
 
@@ -238,43 +258,37 @@ example : ∃ (w pL pR : Row → Bool), (∀ l r, w (l ++ r) = true → pL l = t
    fun _ _ _ => rfl, fun _ _ _ => rfl, ⟨[((0, 0), .int 1), ((1, 0), .int 1)], by decide⟩, ⟨[], by decide⟩⟩
 
 /-- **C08_partial_model**: the model plan of the transcribed planner returns exactly what the query returns, for ALL
-databases, for every query of the two-table fragment — every join kind, any WHERE tree, with or without LIMIT — that
-satisfies the decidable side condition `planSound q = nullSafe q && limitSound q`:
+databases, for every query of the two-table fragment — every join kind (inner, LEFT, LEFT OUTER, RIGHT, FULL), ANY
+WHERE tree (AND / OR / NOT, comparisons, IS NULL), with or without LIMIT — that satisfies the decidable side condition
+`planSound q = limitSound q`:
 
-* `nullSafe`: the fetch of an operand that the join pads with NULLs (right operand of LEFT/FULL, left operand of
-  RIGHT/FULL) receives only NULL-rejecting pushed filters (`col <op> const`, not `col IS NULL`);
-* `limitSound`: LIMIT is not pushed into the first fetch, or the join is a LEFT join, WHERE is absent or a conjunction
-  of tests on the first table only (so it is evaluated completely inside that fetch).  (A query with GROUP BY / HAVING
-  never gets the pushdown since repo commit 1052add: `C08_useLimit_group_by`.)
+* LIMIT is not pushed into the first fetch, or the join is a LEFT join and WHERE is absent or a conjunction of tests on
+  the first table only (so it is evaluated completely inside that fetch).
 
-Each way of violating the condition is inhabited by a witness on which the plan is wrong:
-`C08_witness_isnull` (¬nullSafe), `C08_witness_limit_inner` (LIMIT, not a LEFT join), `C08_witness_limit_where`
-(LIMIT, LEFT join, residual WHERE), `C08_witness_limit_group` (grouping). -/
+No condition on outer joins is left: since repo commit 15097fa a filter that accepts NULLs is not pushed to a
+null-supplying side (`Sem.pushedForK`, `C08_regression_isnull*`), and a grouped query never gets the LIMIT pushdown
+(1052add, `C08_useLimit_group_by`).  Each way of violating `limitSound` is inhabited by a witness on which the plan is
+wrong: `C08_witness_limit_inner` (not a LEFT join), `C08_witness_limit_where` (LEFT join, residual WHERE). -/
 theorem C08_partial_model (q : Q2) (db : DB) (h : planSound q = true) :
     execPlan (plan q) db = evalQuery q db :=
   plan2_sound q db h
 
-/-- corollary: every inner join without LIMIT (any WHERE tree) -/
-theorem C08_partial_model_inner (q : Q2) (db : DB) (hk : q.kind = .inner) (hl : q.limit = none) :
+/-- corollary: EVERY query without LIMIT — all join kinds, any WHERE tree, every database -/
+theorem C08_partial_model_nolimit (q : Q2) (db : DB) (hl : q.limit = none) :
     execPlan (plan q) db = evalQuery q db := by
   apply plan2_sound
-  simp [planSound, nullSafe, limitSound, plan, hk, hl]
+  simp [planSound, limitSound, plan, hl]
+
+/-- corollary: every inner join without LIMIT (any WHERE tree) -/
+theorem C08_partial_model_inner (q : Q2) (db : DB) (_hk : q.kind = .inner) (hl : q.limit = none) :
+    execPlan (plan q) db = evalQuery q db :=
+  C08_partial_model_nolimit q db hl
 
 /-- corollary: LEFT join with LIMIT and a WHERE on the first table only -/
 theorem C08_partial_model_left_limit (q : Q2) (db : DB) (hk : q.kind = .left) (hw : whereLeftOnly q.w = true) :
     execPlan (plan q) db = evalQuery q db := by
   apply plan2_sound
-  have h1 : pushedNullSafe 1 q.w = true := by
-    cases hq : q.w with
-    | none => simp [pushedNullSafe, pushedFor]
-    | some e =>
-      have hp : e.pureConj 0 = true := by simpa [whereLeftOnly, hq] using hw
-      obtain ⟨h1, h2, _⟩ := pure_facts 0 e hp
-      simp only [pushedNullSafe, pushedFor, h1, Bool.false_eq_true, if_false, List.all_eq_true, List.mem_filter]
-      intro x hx
-      have := h2 x hx.1
-      simp [this] at hx
-  simp [planSound, nullSafe, limitSound, hk, hw, h1, JoinKind.isLeft]
+  simp [planSound, limitSound, hk, hw, JoinKind.isLeft]
 
 /-- non-vacuity / coverage of `planSound` (by evaluation): LEFT + WHERE on both tables without LIMIT, LEFT + LIMIT +
 WHERE on the first table, RIGHT and FULL with NULL-rejecting filters, inner with NOT / OR -/
@@ -289,7 +303,7 @@ example : planSound { kind := .right, c0 := 0, c1 := 0, limit := none, w := some
 example : planSound { kind := .full, c0 := 0, c1 := 0, limit := none, w := some exW3 } = true := by decide
 example : planSound { kind := .inner, c0 := 0, c1 := 0, limit := none, w := some exW4 } = true := by decide
 /-- the witness queries violate it -/
-example : planSound isnullQ = false ∧ planSound limQ = false := by decide
+example : planSound isnullQ = true ∧ planSound limQ = false := by decide
 
 /-- LEFT join + LIMIT 1 + a WHERE on the second table: the first left row has no partner with `y = 1` -/
 def limWhereQ : Q2 := { kind := .left, c0 := 0, c1 := 0, w := some (.cmpC .eq 1 1 (.int 1)), limit := some 1 }
